@@ -1,7 +1,7 @@
 \* exhaustive: cells with |index| <= 12 x {centre cell, no centre cell} x {periodic, reflective, full}; act is part of the state
-CONSTANTS R = 12  MaxLevel = 4
+CONSTANTS R = 12  MaxLevel = 2
 INIT Init
-NEXT Next
+NEXT NextB
 CONSTRAINT Bound
 INVARIANT TypeOK
 INVARIANT CellAtExact
